@@ -17,6 +17,13 @@ from ..cursor import run_cursor
 LEVEL = "other"
 
 
+def _is_fp(x):
+    while isinstance(x, dict) and x.get("k") in ("icast", "cast", "copy") and not x.get("t"):
+        x = x.get("e")
+    t = (x.get("t") or x.get("to") or x.get("ret") or "") if isinstance(x, dict) else ""
+    return t.replace("const ", "").replace(" &", "").strip() in ("float", "double")
+
+
 def has_lit(tree, s):
     return any(n.get("k") == "lit" and n.get("s") == s for n in walk(tree))
 
@@ -260,10 +267,9 @@ def run(ctx, rep):
                             b_ = strip_targs(n.get("fn") or "")
                             if any(b_ == f or (f.endswith("::") and b_.startswith(f)) for f in sc["families"]):
                                 calls.add(b_)
-                        elif n.get("k") == "bin" and n.get("op") in ("+", "-", "*", "/") and \
-                                (n.get("t") in ("float", "double") or
-                                 any(isinstance(x, dict) and x.get("t") in ("float", "double") for x in (n.get("l"), n.get("r")))):
-                            fops.add(n["op"])
+                        elif n.get("k") == "bin" and n.get("op") in ("+", "-", "*", "/", "+=", "-=", "*=", "/=") and \
+                                (_is_fp(n) or any(_is_fp(x) for x in (n.get("l"), n.get("r")))):
+                            fops.add(n["op"].rstrip("="))
             sigs[side] = (calls, fops)
             sigs[side + "_calls_other"] = any(
                 n.get("k") == "call" and strip_targs(n.get("fn") or "") == sc["b" if side == "a" else "a"]
